@@ -20,16 +20,28 @@ random histories of `convert` / `reset` (every output and the state afterwards; 
                                   manually between calls to `convert`"), not a defect;
   * `C11X_tables_grow`, `C11X_references_persist`   between resets the tables only grow (a log of writes): what an
                                   earlier document defined stays until `reset()`;
+  * `C11X_block_parse_exact`, `C11X_tables_exact`, `C11X_references_exact`   exactly what is added: the block parser
+                                  started from a carried log `L` returns the tree and `L ++` the writes it makes on a
+                                  new instance; without the footnotes extension (whose tree processor parses the
+                                  carried footnote texts again) `md.references` after a conversion is `md.references`
+                                  before it followed by the definitions of the document;
   * `C11X_block_tree_no_leak`     what the carried tables can NOT change: the element tree that the block parser builds
                                   for the document (headings, lists, quotes, code, tables, …) is the same whatever
                                   references / footnotes / abbreviations the instance carries — the leak enters only
                                   after the block parser (footnote `div`, reference look-up, footnote references,
                                   `abbr` elements, placeholder numbers);
+  * `C11X_machine`, `C11X_machine_run`, `C11X_abstract_reset_fresh`, `C11X_instances_disjoint`   the concrete model is an
+                                  instance of the abstract machine of `Model/Instance.lean`: the frame theorems of
+                                  `Props/C11.lean` (reset, several instances in one store) hold of it;
+  * `C11X_convert_after_reset_full`, `C11X_side_outputs_not_read`   the side outputs: after `reset()` a conversion leaves
+                                  the same `md.toc` / `md.toc_tokens` (and tables) as on a new instance; they are
+                                  written, never read;
   * `C11X_blank_keeps_state`      a blank document is answered before any stage runs and leaves the state;
   * `C11X_untracked_is_ood`, `C11X_tracked_iff_ok`   the model never guesses: after a conversion that did not return
                                   normally (or that is outside the modelled domain) it answers `ood` until `reset()`.
 -/
 import MdVerif.Lemmas.InstanceXTree
+import MdVerif.Props.C11
 
 namespace MdVerif.InstanceX
 open Py Pipeline PipelineX
@@ -112,13 +124,14 @@ example : outcomes {} {} fresh [.convert "a < b".toList, .convert "c".toList, .r
     `reset()` can leak. -/
 theorem C11X_no_reset_leak (x : Exts) (cfg : Cfg) (st : MdSt) (s : Str) (hv : st.valid = true) (hl : st.log = [])
     (hh : st.html = []) (hf : st.fn = Footnotes.State.empty) : (convertS x cfg st s).1 = convertX x cfg s := by
-  have : st = fresh := by
-    cases st
-    simp only at hv hl hh hf
-    subst hv hl hh hf
-    rfl
-  rw [this]
-  exact convertS_fresh x cfg s
+  rw [← convertS_fresh x cfg s]
+  exact convertS_fst_congr (st' := fresh) hv hl hh hf s
+
+/-- **The side outputs an instance holds never influence a conversion**: `md.toc` / `md.toc_tokens` are written,
+    never read. -/
+theorem C11X_side_outputs_not_read (x : Exts) (cfg : Cfg) (st : MdSt) (toc : Option Str) (toks : List Toc.Tok)
+    (s : Str) : (convertS x cfg { st with toc := toc, tocTokens := toks } s).1 = (convertS x cfg st s).1 :=
+  convertS_fst_congr (st := { st with toc := toc, tocTokens := toks }) (st' := st) rfl rfl rfl rfl s
 
 example : fresh.valid = true ∧ fresh.log = [] ∧ fresh.html = [] ∧ fresh.fn = Footnotes.State.empty := by decide
 
@@ -217,7 +230,7 @@ theorem C11X_block_tree_fresh (x : Exts) (cfg : Cfg) (st : MdSt) (src : Str) (hf
   simp only [blockTreeS, prepareS_nofence x cfg _ src hf]
   by_cases hc : (x.admonition && admNonAscii (Normalize.normalize cfg.tab src)) = true
   · simp only [hc, if_true]
-  · simp only [hc, if_false]
+  · simp only [hc]
     exact docParseS_indep x cfg _ _ _
 
 example : ({} : Exts).fencedCode = false ∧ ({ footnotes := true, abbr := true, tables := true } : Exts).fencedCode = false := by
@@ -230,5 +243,124 @@ example : (blockTreeS { fencedCode := true } {} { html := ["x".toList] } "```\na
     (blockTreeS { fencedCode := true } {} fresh "```\na\n```".toList).map
       (fun n => n.children.map (·.text)) = some [some ([Char.ofNat 2] ++ "wzxhzdk:0".toList ++ [Char.ofNat 3])] := by
   decide +kernel
+
+/-! ### exactly what a conversion adds to the tables -/
+
+/-- **The block parser on an instance that carries tables** returns the tree it builds on a new instance, and the
+    carried log followed by the writes it makes on a new instance — nothing else.  (With `abbr`, for a carried log
+    without abbreviation entries: removing an abbreviation, `*[X]: ''`, writes only when `X` is defined.) -/
+theorem C11X_block_parse_exact (x : Exts) (cfg : Cfg) (L : Block.Refs)
+    (hL : x.abbr = true → ∀ e ∈ L, BlockExt.isAbEntry e = false) (text : Str) :
+    docParseS x cfg L text = (docParseS x cfg [] text).map (fun q => (q.1, L ++ q.2)) :=
+  docParseS_shift x cfg L hL text
+
+example : ∀ e ∈ ([("a".toList, ("/u".toList, none)), (BlockExt.fnKey "1".toList, ("note".toList, none))] : Block.Refs),
+    BlockExt.isAbEntry e = false := by decide
+
+/-- **Exactly what a conversion adds.**  Without the footnotes extension (and without `fenced_code`, whose
+    placeholders are numbered from the stash): when `convert(src)` answers for a non-blank `src`, the log of table
+    writes afterwards is the log before followed by `docWrites x cfg src`, the writes the block parser makes for `src`
+    on a new instance. -/
+theorem C11X_tables_exact (x : Exts) (cfg : Cfg) (st : MdSt) (src : Str) (hfn : x.footnotes = false)
+    (hfc : x.fencedCode = false) (hL : x.abbr = true → ∀ e ∈ st.log, BlockExt.isAbEntry e = false)
+    (hnb : Normalize.isBlankDoc src = false) (hok : (convertS x cfg st src).2.valid = true) :
+    (convertS x cfg st src).2.log = st.log ++ docWrites x cfg src :=
+  convertS_log_exact x cfg st src hfn hfc hL hnb hok
+
+/-- … for `md.references`: what was there, then the definitions of the document (a later entry wins). -/
+theorem C11X_references_exact (x : Exts) (cfg : Cfg) (st : MdSt) (src : Str) (hfn : x.footnotes = false)
+    (hfc : x.fencedCode = false) (hL : x.abbr = true → ∀ e ∈ st.log, BlockExt.isAbEntry e = false)
+    (hnb : Normalize.isBlankDoc src = false) (hok : (convertS x cfg st src).2.valid = true) :
+    (convertS x cfg st src).2.references = st.references ++ BlockExt.refsOf (docWrites x cfg src) := by
+  simp only [MdSt.references, C11X_tables_exact x cfg st src hfn hfc hL hnb hok, BlockExt.refsOf, List.filter_append]
+
+example : ({} : Exts).footnotes = false ∧ ({} : Exts).fencedCode = false ∧
+    Normalize.isBlankDoc "[a]: /u\n\ntext [a]".toList = false ∧
+    (convertS {} {} fresh "[a]: /u\n\ntext [a]".toList).2.valid = true := by decide +kernel
+example : docWrites {} {} "[a]: /u\n\ntext [a]".toList = [("a".toList, ("/u".toList, none))] := by decide +kernel
+
+/-- the hypothesis on footnotes is needed: `FootnoteTreeprocessor` parses the carried footnote texts again in every
+    conversion, and a reference definition inside a footnote is written again each time -/
+example : (runS { footnotes := true } {} fresh [.convert "[^1]: x\n\n    [b]: /u".toList, .convert "plain".toList]).log =
+      (runS { footnotes := true } {} fresh [.convert "[^1]: x\n\n    [b]: /u".toList]).log ++
+        [("b".toList, ("/u".toList, none))] ∧
+    docWrites { footnotes := true } {} "plain".toList = [] := by decide +kernel
+
+/-- the hypothesis on abbreviation entries is needed: `*[X]: ''` writes a removal only when `X` is defined -/
+example : (runS { abbr := true } {} fresh [.convert "*[X]: T".toList, .convert "*[X]: ''".toList]).log =
+      [(BlockExt.abKey "X".toList, ("T".toList, none)), (BlockExt.abKey "X".toList, ([], none))] ∧
+    docWrites { abbr := true } {} "*[X]: ''".toList = [] := by decide +kernel
+
+/-! ### the side outputs `md.toc`, `md.toc_tokens` -/
+
+/-- **Same HTML and same side outputs.**  After any history and `reset()`, `convert(s)` gives the same answer AND
+    leaves the same state — `md.toc`, `md.toc_tokens`, references, footnotes, abbreviations, stash — as on a new
+    instance. -/
+theorem C11X_convert_after_reset_full (x : Exts) (cfg : Cfg) (st0 : MdSt) (h : List Ev) (s : Str) :
+    convertS x cfg (resetS (runS x cfg st0 h)) s = convertS x cfg fresh s := rfl
+
+/-- `reset()` clears the side outputs (`TocExtension.reset`: `md.toc = ''`, `md.toc_tokens = []`) -/
+theorem C11X_reset_side_outputs (st : MdSt) : (resetS st).toc = some [] ∧ (resetS st).tocTokens = [] := ⟨rfl, rfl⟩
+
+/-- the side outputs of a document with one heading -/
+example : (runS { toc := true } {} fresh [.convert "# A".toList]).toc =
+      some "<div class=\"toc\">\n<ul>\n<li><a href=\"#a\">A</a></li>\n</ul>\n</div>\n".toList ∧
+    (runS { toc := true } {} fresh [.convert "# A".toList]).tocTokens = [⟨1, "a".toList, "A".toList⟩] := by
+  decide +kernel
+/-- every conversion that reaches the toc stage overwrites them (no accumulation) … -/
+example : (runS { toc := true } {} fresh [.convert "# A".toList, .convert "b".toList]).toc =
+    some "<div class=\"toc\">\n<ul></ul>\n</div>\n".toList := by decide +kernel
+/-- … but a blank document is answered before any stage runs: WITHOUT `reset()` the instance still shows the table
+    of contents of the previous document (`C11X_blank_keeps_state`), with `reset()` it is empty -/
+example : (runS { toc := true } {} fresh [.convert "# A".toList, .convert " ".toList]).toc =
+      some "<div class=\"toc\">\n<ul>\n<li><a href=\"#a\">A</a></li>\n</ul>\n</div>\n".toList ∧
+    (runS { toc := true } {} fresh [.convert "# A".toList, .reset, .convert " ".toList]).toc = some [] := by
+  decide +kernel
+
+/-! ### the concrete model as an instance of the abstract machine (`Model/Instance.lean`, `Props/C11.lean`) -/
+
+/-- the abstract machine whose `convert` is `convertS`: the configuration is the extension set with the `Cfg`, the
+    fields are `MdSt`, the nesting state of the block parser is not carried by this model (`Unit`; empty after every
+    conversion that returns, `valid = false` after one that does not); a raising conversion is `raised` -/
+def C11X_machine : Instance.Machine (Exts × Cfg) MdSt Unit Str Outcome where
+  initF := fun _ => fresh
+  leak0 := ()
+  convert := fun c fl d =>
+    (((convertS c.1 c.2 fl.1 d).2, ()),
+     match (convertS c.1 c.2 fl.1 d).1 with
+     | .err => .raised
+     | o => .ok o)
+
+/-- an event of the concrete model as an event of the abstract machine -/
+def Ev.abs : Ev → Instance.Ev Str
+  | .convert s => .convert s
+  | .reset => .reset
+
+/-- the abstract machine runs the concrete histories: its fields after a history are `runS` -/
+theorem C11X_machine_run (c : Exts × Cfg) (st : MdSt) (h : List Ev) :
+    (Instance.runHistory C11X_machine ⟨c, st, ()⟩ (h.map Ev.abs)).fields = runS c.1 c.2 st h ∧
+    (Instance.runHistory C11X_machine ⟨c, st, ()⟩ (h.map Ev.abs)).cfg = c := by
+  induction h generalizing st with
+  | nil => exact ⟨rfl, rfl⟩
+  | cons e h ih =>
+    cases e with
+    | convert s => exact ih _
+    | reset => exact ih _
+
+/-- **The abstract C11 theorem, instantiated**: on the machine whose `convert` is the concrete `convertS`, after
+    any history and `reset()` a document gives the same result and the same state afterwards as on a new instance. -/
+theorem C11X_abstract_reset_fresh (c : Exts × Cfg) (h : List (Instance.Ev Str)) (d : Str) :
+    Instance.observe (Instance.conv C11X_machine
+        (Instance.reset C11X_machine (Instance.runHistory C11X_machine (Instance.fresh C11X_machine c) h)) d) =
+      Instance.observe (Instance.conv C11X_machine (Instance.fresh C11X_machine c) d) :=
+  Instance.C11_reset_fresh C11X_machine c h d
+
+/-- **Instances do not affect each other** (two differently configured concrete instances in one store): whatever
+    is done with instance 0 — conversions, resets — instance 1 produces for `d` what it would have produced. -/
+theorem C11X_instances_disjoint (a b : Instance.Inst (Exts × Cfg) MdSt Unit) (ha : List (Instance.Ev Str)) (d : Str) :
+    ((Instance.runStore C11X_machine [a, b] (ha.map (Instance.SEv.on 0 (Cfg := Exts × Cfg))))[1]?).map
+        (fun y => Instance.observe (Instance.conv C11X_machine y d)) =
+      some (Instance.observe (Instance.conv C11X_machine b d)) :=
+  Instance.C11_two_instances C11X_machine a b ha d
 
 end MdVerif.InstanceX
